@@ -57,7 +57,9 @@ def entries():
     add("tenalg.khatri_rao", [CT.khatri_rao],
         _both("kr", "khatri_rao", {"matrices": mats}, {"matrices": "list"})
         + _both("kr", "khatri_rao", {"matrices": mats, "weights": L(lambda c: np.array([2.0, 0.5])), "skip_matrix": 1}, {"matrices": "list"}, label="weights+skip")
-        + _both("kr", "khatri_rao", {"matrices": mats, "mask": L(lambda c: mask_for(c, "float").reshape(-1, 1))}, {"matrices": "list", "mask": "float"}, label="mask")
+        + _both("kr", "khatri_rao", {"matrices": mats, "mask": L(lambda c: mask_for(c, "float").reshape(-1, 1))}, {"matrices": "list+mask-option", "mask": "float"}, label="mask")
+        + [Spec("mask[tensor-shaped]@einsum", tenalg_fn("khatri_rao"), {"matrices": mats, "mask": L(lambda c: mask_for(c, "float"))},
+                {"matrices": "list+mask-option", "mask": "float"}, sizes=ALL, tenalg="einsum")]
         + _both("kr", "khatri_rao", {"matrices": L(lambda c: tuple(mat((s, 2), c, i) for i, s in enumerate(c.shape)))}, {"matrices": "tuple"}, label="tuple"),
         "tenalg")
     add("tenalg.kronecker", [CT.kronecker],
@@ -93,9 +95,9 @@ def entries():
         + _both("td", "tensordot", {"tensor1": T_, "tensor2": L(lambda c: ten(c, k=1)), "modes": L(lambda c: [[-1], [-1]]), "batched_modes": L(lambda c: [[-2], [-2]])},
                 {"modes": "nested-list-negative", "batched_modes": "nested-list-negative"}, label="batched[negative]"), "tenalg")
     add("tenalg.unfolding_dot_khatri_rao", [CT.unfolding_dot_khatri_rao],
-        _both("mttkrp", "unfolding_dot_khatri_rao", {"tensor": T_, "cp_tensor": L(lambda c: cp_dec(c, 2, "nonunit")), "mode": 1}, {"cp_tensor": "cp-weights-nonunit"})
+        _both("mttkrp", "unfolding_dot_khatri_rao", {"tensor": T_, "cp_tensor": L(lambda c: cp_dec(c, 2, "nonunit")), "mode": 1}, {"cp_tensor": "cp-nonunit-weights"})
         + _both("mttkrp", "unfolding_dot_khatri_rao", {"tensor": T_, "cp_tensor": L(lambda c: cp_dec(c, 2, "none", only=("tuple", "list"))), "mode": 0},
-                {"cp_tensor": "cp-weights-none"}, label="weights-none"), "tenalg")
+                {"cp_tensor": "cp-unit-weights"}, label="weights-none"), "tenalg")
     add("tenalg.higher_order_moment", [CT.higher_order_moment],
         _both("hom", "higher_order_moment", {"tensor": L(lambda c: ten(c, shape=(5, 3))), "order": 3}, sizes=(0,)), "tenalg")
     add("tenalg.tt_matrix_to_tensor", [TM.tt_matrix_to_tensor],
@@ -172,7 +174,7 @@ def entries():
     def cpd(w="nonunit", **kw):
         return L(lambda c: cp_dec(c, 2, w, **kw))
 
-    WC = {"none": "cp-weights-none", "ones": "cp-weights-ones", "nonunit": "cp-weights-nonunit"}
+    WC = {"none": "cp-unit-weights", "ones": "cp-unit-weights", "nonunit": "cp-nonunit-weights"}
 
     def cp_fn_specs(f, extra=None, ws=("nonunit", "none"), sizes=ALL, pname="cp_tensor"):
         out = []
@@ -299,20 +301,20 @@ def entries():
                          ("to_unfolding", lambda self, mode: self.to_unfolding(mode), {"mode": 1})):
         add(f"TTMatrix.{nm}", [getattr(TM.TTMatrix, nm)], [Spec("default", f, dict({"self": tms}, **extra), {"self": "ttm"})], "tt_matrix")
     p2 = lambda w="nonunit", **kw: L(lambda c: parafac2_dec(c, w=w, **kw))
-    P2c = {"parafac2_tensor": "parafac2-weights-nonunit"}
+    P2c = {"parafac2_tensor": "parafac2-nonunit-weights"}
     for nm, f, extra in (("parafac2_to_tensor", P2.parafac2_to_tensor, {}), ("parafac2_to_slices", P2.parafac2_to_slices, {}),
                          ("parafac2_to_slice", P2.parafac2_to_slice, {"slice_idx": 1}), ("parafac2_to_unfolded", P2.parafac2_to_unfolded, {"mode": 1}),
                          ("parafac2_to_vec", P2.parafac2_to_vec, {}), ("apply_parafac2_projections", P2.apply_parafac2_projections, {}),
                          ("parafac2_normalise", P2.parafac2_normalise, {})):
         add(f"parafac2_tensor.{nm}", [f], [Spec("weights[nonunit]", f, dict({"parafac2_tensor": p2()}, **extra), P2c),
-                                            Spec("weights[none]", f, dict({"parafac2_tensor": p2("none", only=("tuple", "list"))}, **extra), {"parafac2_tensor": "parafac2-weights-none"})],
+                                            Spec("weights[none]", f, dict({"parafac2_tensor": p2("none", only=("tuple", "list"))}, **extra), {"parafac2_tensor": "parafac2-unit-weights"})],
             "parafac2_tensor")
     p2s = p2(only=W)
     for nm, f, extra in (("to_tensor", lambda self: self.to_tensor(), {}), ("to_vec", lambda self: self.to_vec(), {}),
                          ("to_unfolded", lambda self, mode: self.to_unfolded(mode), {"mode": 1})):
-        add(f"Parafac2Tensor.{nm}", [getattr(P2.Parafac2Tensor, nm)], [Spec("default", f, dict({"self": p2s}, **extra), {"self": "parafac2-weights-nonunit"})], "parafac2_tensor")
+        add(f"Parafac2Tensor.{nm}", [getattr(P2.Parafac2Tensor, nm)], [Spec("default", f, dict({"self": p2s}, **extra), {"self": "parafac2-nonunit-weights"})], "parafac2_tensor")
     add("Parafac2Tensor.from_CPTensor", [P2.Parafac2Tensor.from_CPTensor],
-        [Spec("cp", lambda cp_tensor: P2.Parafac2Tensor.from_CPTensor(cp_tensor), {"cp_tensor": L(lambda c: cp_dec(c, 2, "nonunit", shape=(3, 4, 3)))}, {"cp_tensor": "cp-weights-nonunit"}),
-         Spec("parafac2-ok", lambda cp_tensor: P2.Parafac2Tensor.from_CPTensor(cp_tensor, parafac2_tensor_ok=True), {"cp_tensor": p2()}, {"cp_tensor": "parafac2-weights-nonunit"})],
+        [Spec("cp", lambda cp_tensor: P2.Parafac2Tensor.from_CPTensor(cp_tensor), {"cp_tensor": L(lambda c: cp_dec(c, 2, "nonunit", shape=(3, 4, 3)))}, {"cp_tensor": "cp-nonunit-weights"}),
+         Spec("parafac2-ok", lambda cp_tensor: P2.Parafac2Tensor.from_CPTensor(cp_tensor, parafac2_tensor_ok=True), {"cp_tensor": p2()}, {"cp_tensor": "parafac2-nonunit-weights"})],
         "parafac2_tensor")
     return E
